@@ -12,6 +12,10 @@ use std::time::Instant;
 
 pub const DEFAULT_SEED: u64 = 20261004;
 
+/// Set for the thorough tier: generators then also draw larger cases (more threads / operations,
+/// longer histories) for a share of the runs.
+pub static DEEP: AtomicBool = AtomicBool::new(false);
+
 #[derive(Clone, Copy, PartialEq, Eq, Debug)]
 pub enum Tier {
     Quick,
